@@ -222,7 +222,7 @@ example : parseZone (renderZone ([('A', 5), ('B', -3)].map fun z => ([z.1], z.2)
   zone_roundtrip [('A', 5), ('B', -3)] (by decide)
 
 example : renderZone [(['A'], 5)] = [['z', 'o', 'n', 'e', ' '] ++ ['A'] ++ Py.intStr 5 ++ ['-'] ++ ['A'] ++ Py.intStr 5 ++ ['\n']] := by
-  simp [renderZone, Gen.zone_line, pure, Except.pure]
+  simp [renderZone, Props.C09.zone_line_format]
 
 /-! ### kept regressions: the pinned tree's writers violate the property -/
 
